@@ -13,7 +13,7 @@ import (
 )
 
 func init() {
-	register("C07", "Decides the structure of the rollback in the function that stores status.activeReplicaSet (found from that store): (R1) spec.template of the object to be written is stored only under IsCanaryDeploymentFailed(up-to-date replica set)=true, from <current>.Spec.Template where <current> is the parameter fed by the promotion decision's result (the active replica set unless explicitly validated, by C05.R1), and every path with failed=true performs that store; the status function called there ends every failed path with status.Canary=nil; the canary-active predicate is false whenever failed (so a failed path never re-selects canary nodes); (R2) on every failed path the status write precedes the object write, both are inside the guard !DeepEqual(reconciled object, new object) over whole objects, a successful status write is always followed by Update of the object, and the object handed to Update receives the new object's spec after the status write returned; the failed flag is read from the replica set, not from the object being written; (R3) the replica-set deletion predicate can be true only with all four pod counters of the replica set zero and, when its Canary-Failed condition (the type the canary evaluation writes) is true, only when now is not before LastTransitionTime + d with constant d ≥ 2 minutes; (R4) Delete(ExtendedDaemonSetReplicaSet) is reached only under current != nil, name ≠ current's name, up-to-date == nil or name ≠ its name, no deletion timestamp, and the deletion predicate true for the deleted element.", runC07)
+	register("C07", "Decides the structure of the rollback in the function that stores status.activeReplicaSet (found from that store): (R1) spec.template of the object to be written is stored only under IsCanaryDeploymentFailed(up-to-date replica set)=true, from <current>.Spec.Template where <current> is the parameter fed by the promotion decision's result (the active replica set unless explicitly validated, by C05.R1), and every path with failed=true performs that store; the status function called there ends every failed path with status.Canary=nil; the canary-active predicate is false whenever failed (so a failed path never re-selects canary nodes); (R2) on every failed path the status write precedes the object write, both are inside the guard !DeepEqual(reconciled object, new object) over whole objects, a successful status write is always followed by Update of the object, and the object handed to Update receives the new object's spec after the status write returned; the failed flag is read from the replica set, not from the object being written; (R3) the replica-set deletion predicate can be true only with all four pod counters of the replica set zero and, when its Canary-Failed condition (the type the canary evaluation writes) is true, only when now is not before LastTransitionTime + d with constant d ≥ 2 minutes; (R4) Delete(ExtendedDaemonSetReplicaSet) is reached only under current != nil, name ≠ current's name, up-to-date == nil or name ≠ its name, no deletion timestamp, and the deletion predicate true for the deleted element. (R11, imported C05.R6) the ExtendedDaemonSet controller's failed reader answers no only when the replica set's Canary-Failed condition is not true — no other condition can mask a failed canary between the status write and the spec write of the rollback.", runC07)
 }
 
 // c06FindEval returns the canary evaluation function (holds the IsFailed=true stores), or nil.
